@@ -1083,3 +1083,278 @@ Proof.
   now rewrite Lc2.
 Qed.
 End Cmd.
+
+(* ------------------------------------------------------------------ C02_scoping *)
+Section Scoping.
+Variable uw : char -> bool.
+Notation no_nl_lines ls := (Forall (fun l => has_nl l = false) ls).
+
+Lemma section_one syn k its ls m : val_syn syn = true -> w_section uw [(k, its)] syn = Some ls -> wvar_ok (k, its) ->
+  exists text ts, nwrite_each uw its syn = Some text /\ lex_value text = Some ts /\
+                  run_lines (mkPs m BNone) ls = Some (mkPs (add_var m (k, ts)) BNone) /\ no_nl_lines ls.
+Proof.
+  intros Hs H Hok.
+  destruct (section_written uw syn [(k, its)] ls Hs H (Forall_cons _ Hok (Forall_nil _))) as [[E _]|[kt [kts [-> [R [Lk Nl]]]]]]; [discriminate|].
+  inversion Lk as [|? [k1 x1] ? kt' [Ek Wk] Lk']; subst. inversion Lk'; subst.
+  inversion R as [|? [k2 ts] ? kts' [Ek2 [_ Hl]] R']; subst. inversion R'; subst. cbn [fst snd] in *. subst.
+  exists x1, ts. split; [assumption|]. split; [assumption|]. split; [|assumption].
+  now rewrite (run_vars [(k2, x1)] [(k2, ts)] (mkPs m BNone) m eq_refl R).
+Qed.
+
+Lemma words_items_ok ws : items_ok (nwords_items ws).
+Proof. unfold nwords_items, items_ok. induction ws; repeat constructor. assumption. Qed.
+
+Definition s_sp_c : str := [32; 45; 99; 32].     (* " -c " *)
+Definition s_sp_o : str := [32; 45; 111; 32].    (* " -o " *)
+
+(* C02_scoping: file-level cc / global_cflags / cflags, rule cc with  command = ${cc} ${cflags} -c ${in} -o ${out},
+   edge  build obj: cc src  with  cflags = ${global_cflags} t.  The parsed text gives the command
+      <cc words> <flags> -c <in> -o <out>
+   where sh splits <cc words> into ccw, <flags> into g ++ t (the rule-level reference sees the edge binding, the
+   edge binding sees the file-level variable), <in> into [src] and <out> into [obj]. *)
+Theorem scoping bfg ccw g t src obj text :
+  has_nl bfg = false -> path_ok src = true -> path_ok obj = true ->
+  nf_write uw (w_compile_file bfg ccw g t src obj) = Some text ->
+  exists m flags,
+    parse_manifest text = Some m /\
+    command_of m obj = Some (join uw ccw ++ c_sp :: flags ++ s_sp_c ++ nj_in_out [src] ++ s_sp_o ++ nj_in_out [obj]) /\
+    sh_words uw (join uw ccw) = Some ccw /\ sh_words uw flags = Some (g ++ t) /\
+    sh_words uw (nj_in_out [src]) = Some [src] /\ sh_words uw (nj_in_out [obj]) = Some [obj].
+Proof.
+  intros Hbfg Hsrc Hobj H.
+  set (wf := w_compile_file bfg ccw g t src obj) in *.
+  unfold nf_write in H. destruct (nf_lines uw wf) as [lines|] eqn:L; [|discriminate]. cbn [option_map] in H.
+  inversion H; subst text. clear H.
+  unfold nf_lines in L. cbn [wf_path wf_command wf_flags wf_other wf_rules wf_builds wf w_compile_file map app] in L.
+  apply opt_concat_cons_inv in L as [l0 [r0 [E0 [L ->]]]]. inversion E0; subst l0. clear E0.
+  apply opt_concat_cons_inv in L as [lv [r1 [Ev [L ->]]]]. cbn in Ev. inversion Ev; subst lv. clear Ev.
+  apply opt_concat_cons_inv in L as [l2 [r2 [E2 [L ->]]]]. cbn in E2. inversion E2; subst l2. clear E2.
+  apply opt_concat_cons_inv in L as [l3 [r3 [E3 [L ->]]]].
+  apply opt_concat_cons_inv in L as [l4 [r4 [E4 [L ->]]]].
+  apply opt_concat_cons_inv in L as [l5 [r5 [E5 [L ->]]]].
+  apply opt_concat_cons_inv in L as [lr [r6 [Er [L ->]]]].
+  apply opt_concat_cons_inv in L as [lb [r7 [Eb [L ->]]]].
+  apply opt_concat_cons_inv in L as [ld [r8 [Ed [L ->]]]]. cbn in Ed. inversion Ed; subst ld. clear Ed.
+  cbn in L. inversion L; subst r8. clear L. cbn [app]. rewrite !app_nil_r.
+  destruct (header_run wf empty_manifest) as [Rh Nh]. specialize (Nh Hbfg).
+  (* the three file-level variables *)
+  destruct (section_one NShell t_cc (nwords_items ccw) l3 empty_manifest eq_refl E3) as [x3 [ts3 [W3 [Hl3 [R3 N3]]]]].
+  { split; [apply words_items_ok|reflexivity]. }
+  set (m3 := add_var empty_manifest (t_cc, ts3)) in *.
+  destruct (section_one NShell t_global_cflags (nwords_items g) l4 m3 eq_refl E4) as [x4 [ts4 [W4 [Hl4 [R4 N4]]]]].
+  { split; [apply words_items_ok|reflexivity]. }
+  set (m4 := add_var m3 (t_global_cflags, ts4)) in *.
+  destruct (section_one NShell t_cflags [[NLit (var_use t_global_cflags)]] l5 m4 eq_refl E5) as [x5 [ts5 [W5 [Hl5 [R5 N5]]]]].
+  { split; [repeat constructor|reflexivity]. }
+  cbn in W5. inversion W5; subst x5. clear W5.
+  change (lex_value (var_use t_global_cflags)) with (Some [TV t_global_cflags]) in Hl5. inversion Hl5; subst ts5. clear Hl5.
+  set (m5 := add_var m4 (t_cflags, [TV t_global_cflags])) in *.
+  (* the rule *)
+  set (cmd_items := [[NLit (var_use t_cc)]; [NLit (var_use t_cflags)]; [NStr t_dash_c]; [NLit (var_use t_in)];
+                     [NStr t_dash_o]; [NLit (var_use t_out)]]) in *.
+  assert (Rok : wrule_ok (mkWRule t_cc cmd_items None None None false None false)).
+  { unfold wrule_ok. cbn [wr_name wr_command wr_depfile wr_deps wr_description wr_pool].
+    split; [reflexivity|]. split; [unfold cmd_items; repeat constructor|]. repeat split; discriminate. }
+  destruct (rule_written uw _ lr Er Rok) as [ktr [ktsr [-> [Rr [Lr [Nr Vr]]]]]]. cbn [wr_name] in *.
+  unfold rule_bindings in Lr. cbn [wr_command wr_depfile wr_deps wr_description wr_generator wr_pool wr_restat optb flagb app] in Lr.
+  inversion Lr as [|b1 [k1 x1] bl1 ktr' [Ea1 Wa1] Lr']; subst. inversion Lr'; subst. cbn [fst snd] in *. subst k1.
+  inversion Rr as [|? [k1' ts1] ? ktsr' [Ek1 [_ [_ Hl1]]] Rr']; subst. inversion Rr'; subst. cbn [fst snd] in *. subst k1'.
+  unfold cmd_items in Wa1. vm_compute in Wa1. inversion Wa1; subst x1. clear Wa1.
+  vm_compute in Hl1. inversion Hl1; subst ts1. clear Hl1.
+  (* the edge *)
+  set (bvars := [(t_cflags, [NLit (var_use t_global_cflags)] :: nwords_items t)]) in *.
+  assert (Bok : wbuild_ok [obj] [src] [] [] t_cc bvars).
+  { repeat split; try (repeat constructor; assumption); try discriminate.
+    unfold bvars. constructor; [|constructor]. repeat split; try discriminate.
+    constructor; [repeat constructor|apply words_items_ok]. }
+  destruct (build_written uw [obj] t_cc [src] [] [] bvars lb Eb Bok) as [ktb [ktsb [-> [Rb [Lb Nb]]]]].
+  unfold bvars in Lb. cbn [map build_binding fst snd] in Lb.
+  inversion Lb as [|b2 [k2 x2] bl2 ktb' [Ea2 Wa2] Lb']; subst. inversion Lb'; subst. cbn [fst snd] in *. subst k2.
+  change (str_eqb t_cflags t_description) with false in Wa2. cbv iota in Wa2.
+  inversion Rb as [|? [k2' ts2] ? ktsb' [Ek2 [_ [_ Hl2]]] Rb']; subst. inversion Rb'; subst. cbn [fst snd] in *. subst k2'.
+  (* values *)
+  assert (V3' : forall e, neval e ts3 = join uw ccw).
+  { intros e. pose proof (value_roundtrip uw e ccw x3 W3) as V3. rewrite Hl3 in V3. cbn [option_map] in V3. now inversion V3. }
+  assert (V4' : forall e, neval e ts4 = join uw g).
+  { intros e. pose proof (value_roundtrip uw e g x4 W4) as V4. rewrite Hl4 in V4. cbn [option_map] in V4. now inversion V4. }
+  set (cmd_toks := [TV [99; 99]; TC 32; TV [99; 102; 108; 97; 103; 115]; TC 32; TC 45; TC 99; TC 32; TV [105; 110]; TC 32; TC 45;
+                    TC 111; TC 32; TV [111; 117; 116]]) in *.
+  pose (m6 := add_rule m5 (mkRule t_cc [(t_command, cmd_toks)])).
+  pose (env := alookup (rev []) (file_env (m_vars m6))).
+  assert (Eg : env t_global_cflags = join uw g).
+  { unfold env, m6, add_rule, m5, m4, m3, add_var. cbn [m_vars fst snd app]. rewrite V4'. reflexivity. }
+  pose proof (ninja_flags_words uw env t_global_cflags g t x2 eq_refl Eg Wa2) as F. rewrite Hl2 in F. cbn [option_map] in F.
+  set (flags := neval env ts2) in *.
+  pose (ed := edge_of m6 [obj] t_cc [src] [] [] [(t_cflags, ts2)]).
+  exists (add_edge m6 ed), flags.
+  assert (P : parse_manifest (unlines (w_header wf ++ l3 ++ l4 ++ l5 ++
+               ((t_kw_rule ++ t_cc) :: map bind_line [(t_command, [36; 123; 99; 99; 125; 32; 36; 123; 99; 102; 108; 97; 103; 115; 125; 32; 45; 99; 32; 36; 123; 105; 110; 125; 32; 45; 111; 32; 36; 123; 111; 117; 116; 125])] ++ [[]]) ++
+               (t_kw_build ++ build_text [obj] t_cc [src] [] []) :: map bind_line [(t_cflags, x2)] ++ [[]]))
+              = Some (add_edge m6 ed)).
+  { rewrite parse_unlines by (repeat (apply Forall_app; split); assumption).
+    rewrite run_lines_app, Rh, run_lines_app, R3, run_lines_app, R4, run_lines_app, R5, run_lines_app.
+    rewrite (run_rule_block (mkPs m5 BNone) m5 t_cc _ [(t_command, cmd_toks)] eq_refl); try assumption; try reflexivity.
+    cbv iota beta. fold m6.
+    rewrite (run_edge_block (mkPs m6 BNone) m6 [obj] t_cc [src] [] [] [(t_cflags, x2)] [(t_cflags, ts2)] eq_refl);
+      try assumption; try reflexivity; try (repeat constructor; assumption); discriminate. }
+  split; [exact P|]. split.
+  - unfold command_of, binding_of, find_edge. unfold add_edge at 1. cbn [m_edges app find].
+    change (m_edges m6) with (@nil edge). cbn [app find]. change (e_outs ed) with [obj]. cbn [existsb].
+    rewrite str_eqb_refl. cbn [orb]. change (e_rule ed) with t_cc.
+    change (find_rule (add_edge m6 ed) t_cc) with (Some (mkRule t_cc [(t_command, cmd_toks)])). cbv iota.
+    unfold lookup_fuel. cbn [r_binds length].
+    assert (Eb1 : e_binds ed = [(t_cflags, flags)]) by reflexivity.
+    assert (Ecc : file_env (m_vars (add_edge m6 ed)) t_cc = join uw ccw).
+    { unfold add_edge, m6, add_rule, m5, m4, m3, add_var. cbn [m_vars fst snd app]. rewrite V3'. reflexivity. }
+    set (fenv := file_env (m_vars (add_edge m6 ed))) in *. rewrite <- Ecc. clearbody fenv.
+    assert (Eed : ed = mkEdge [obj] t_cc [src] [] [] [(t_cflags, flags)] [(t_cflags, ts2)]) by reflexivity.
+    rewrite Eed. rewrite <- (app_nil_r (nj_in_out [obj])). clearbody flags. clear. vm_compute. reflexivity.
+  - split; [apply join_words|]. split; [exact F|]. split; apply in_out_words; repeat constructor.
+    + destruct (path_ok_inv src Hsrc) as [_ Hne]. exact Hne.
+    + destruct (path_ok_inv obj Hobj) as [_ Hne]. exact Hne.
+Qed.
+End Scoping.
+
+(* ------------------------------------------------------------------ C02_parse_total_on_written *)
+Record pbuild := mkPB { pb_outs : list str; pb_rule : str; pb_ins : list str; pb_imp : list str; pb_oo : list str;
+                        pb_vars : list (str * items) }.
+Definition to_wbuild (b : pbuild) : wbuild :=
+  mkWBuild (path_items (pb_outs b)) (pb_rule b) (path_items (pb_ins b)) (path_items (pb_imp b)) (path_items (pb_oo b))
+           (pb_vars b).
+
+(* rules: well-formed, not named phony, pairwise distinct (NinjaFile.rule refuses duplicates itself) *)
+Fixpoint rules_ok (known : list str) (rs : list wrule) : Prop :=
+  match rs with
+  | [] => True
+  | r :: rest => wrule_ok r /\ str_eqb (wr_name r) s_phony = false /\
+                 existsb (fun k => str_eqb k (wr_name r)) known = false /\ rules_ok (known ++ [wr_name r]) rest
+  end.
+(* edges: plain file names, a declared rule (NinjaFile.build refuses unknown rules itself) or phony *)
+Definition pbuild_ok (names : list str) (b : pbuild) : Prop :=
+  wbuild_ok (pb_outs b) (pb_ins b) (pb_imp b) (pb_oo b) (pb_rule b) (pb_vars b) /\
+  str_eqb (pb_rule b) s_phony || existsb (fun k => str_eqb k (pb_rule b)) names = true.
+
+Lemma rule_known_names m n :
+  rule_known m n = str_eqb n s_phony || existsb (fun k => str_eqb k n) (map r_name (m_rules m)).
+Proof. unfold rule_known. f_equal. induction (m_rules m) as [|r l IH]; cbn; [reflexivity|]. now rewrite IH. Qed.
+
+Lemma opt_concat_app_inv {T} (a b : list (option (list T))) : forall l,
+  opt_concat (a ++ b) = Some l -> exists la lb, opt_concat a = Some la /\ opt_concat b = Some lb /\ l = la ++ lb.
+Proof.
+  induction a as [|x a IH]; intros l H.
+  - exists [], l. auto.
+  - cbn [app] in H. apply opt_concat_cons_inv in H as [y [r [-> [Hr ->]]]].
+    destruct (IH r Hr) as [la [lb [Ha [Hb ->]]]]. exists (y ++ la), lb. cbn [opt_concat]. rewrite Ha. unfold opt_app.
+    split; [reflexivity|]. split; [assumption|]. now rewrite app_assoc.
+Qed.
+
+Section Total.
+Variable uw : char -> bool.
+Notation no_nl_lines ls := (Forall (fun l => has_nl l = false) ls).
+
+Lemma section_run syn vars ls m : val_syn syn = true -> w_section uw vars syn = Some ls -> Forall wvar_ok vars ->
+  exists m', run_lines (mkPs m BNone) ls = Some (mkPs m' BNone) /\ m_rules m' = m_rules m /\ no_nl_lines ls.
+Proof.
+  intros Hs H Hok. destruct (section_written uw syn vars ls Hs H Hok) as [[_ ->]|[kt [kts [-> [R [_ Nl]]]]]].
+  - exists m. repeat split. constructor.
+  - rewrite (run_vars kt kts (mkPs m BNone) m eq_refl R). eexists. split; [reflexivity|].
+    destruct (fold_add_var_rules kts m) as [A _]. auto.
+Qed.
+
+Lemma rules_run rs : forall known m lr,
+  opt_concat (map (w_rule uw) rs) = Some lr -> rules_ok known rs -> map r_name (m_rules m) = known ->
+  exists m', run_lines (mkPs m BNone) lr = Some (mkPs m' BNone) /\
+             map r_name (m_rules m') = known ++ map wr_name rs /\ no_nl_lines lr.
+Proof.
+  induction rs as [|r rs IH]; intros known m lr H Hok Hn.
+  - cbn in H. inversion H. exists m. rewrite app_nil_r. repeat split; [assumption|constructor].
+  - cbn [map] in H. apply opt_concat_cons_inv in H as [l1 [l2 [H1 [H2 ->]]]]. destruct Hok as [Hr [Hp [Hk Hrest]]].
+    destruct (rule_written uw r l1 H1 Hr) as [kt [kts [-> [R [Lk [Nl Vr]]]]]].
+    assert (Hcmd : has_key s_command kts = true).
+    { unfold rule_bindings in Lk. cbn [app] in Lk. inversion Lk as [|? [k1 x1] ? ? [E1 _] _]; subst.
+      inversion R as [|? [k2 ts] ? ? [E2 _] _]; subst. cbn [fst snd] in *. subst. cbn [has_key existsb fst]. reflexivity. }
+    assert (Hkn : rule_known m (wr_name r) = false) by (rewrite rule_known_names, Hn, Hp, Hk; reflexivity).
+    destruct Hr as [Hname Hr'].
+    pose proof (run_rule_block (mkPs m BNone) m (wr_name r) kt kts eq_refl Hname Hkn R Vr Hcmd) as Run.
+    destruct (IH (known ++ [wr_name r]) (add_rule m (mkRule (wr_name r) kts)) l2 H2 Hrest) as [m' [Run' [Nm' Nl']]].
+    { unfold add_rule. cbn [m_rules]. rewrite map_app, Hn. reflexivity. }
+    exists m'. split; [|split].
+    + rewrite run_lines_app, Run. exact Run'.
+    + rewrite Nm', <- app_assoc. reflexivity.
+    + apply Forall_app. split; assumption.
+Qed.
+
+Lemma builds_run pbs : forall names m lb,
+  opt_concat (map (w_build uw) (map to_wbuild pbs)) = Some lb -> Forall (pbuild_ok names) pbs ->
+  map r_name (m_rules m) = names ->
+  exists m', run_lines (mkPs m BNone) lb = Some (mkPs m' BNone) /\ map r_name (m_rules m') = names /\ no_nl_lines lb.
+Proof.
+  induction pbs as [|b pbs IH]; intros names m lb H Hok Hn.
+  - cbn in H. inversion H. exists m. repeat split; [assumption|constructor].
+  - cbn [map] in H. apply opt_concat_cons_inv in H as [l1 [l2 [H1 [H2 ->]]]].
+    inversion Hok as [|? ? [Hb Hrule] Hok']; subst.
+    unfold to_wbuild in H1.
+    destruct (build_written uw _ _ _ _ _ _ l1 H1 Hb) as [kt [kts [-> [R [_ Nl]]]]].
+    destruct Hb as [Ho [Hne [Hi [Hm [Hoo [Hr Hv]]]]]].
+    assert (Hkn : rule_known m (pb_rule b) = true) by (now rewrite rule_known_names).
+    pose proof (run_edge_block (mkPs m BNone) m _ _ _ _ _ kt kts eq_refl Ho Hne Hi Hm Hoo Hr Hkn R) as Run.
+    destruct (IH (map r_name (m_rules m)) (add_edge m (edge_of m (pb_outs b) (pb_rule b) (pb_ins b) (pb_imp b) (pb_oo b) kts)) l2 H2 Hok' eq_refl)
+      as [m' [Run' [Nm' Nl']]].
+    exists m'. split; [|split].
+    + rewrite run_lines_app, Run. exact Run'.
+    + exact Nm'.
+    + apply Forall_app. split; assumption.
+Qed.
+
+Lemma defaults_run wf dflt ld m : wf_defaults wf = path_items dflt -> all_paths_ok dflt -> w_defaults uw wf = Some ld ->
+  exists m', run_lines (mkPs m BNone) ld = Some (mkPs m' BNone) /\ no_nl_lines ld.
+Proof.
+  intros Hd Hp H. unfold w_defaults in H. rewrite Hd in H. destruct dflt as [|p ps].
+  - cbn in H. inversion H. exists m. split; [reflexivity|constructor].
+  - change (path_items (p :: ps)) with ([NStr p] :: path_items ps) in H. cbv iota in H.
+    change ([NStr p] :: path_items ps) with (path_items (p :: ps)) in H.
+    rewrite nwrite_each_paths in H by auto. cbn [option_map opt_all] in H. inversion H; subst ld.
+    eexists. split.
+    + cbn [run_lines]. change (100 :: 101 :: 102 :: 97 :: 117 :: 108 :: 116 :: 32 :: jpaths (p :: ps)) with (t_kw_default ++ jpaths (p :: ps)). rewrite (parse_line_default (mkPs m BNone) m (p :: ps) eq_refl Hp) by discriminate. reflexivity.
+    + constructor; [|constructor]. change (has_nl (t_kw_default ++ jpaths (p :: ps)) = false).
+      now rewrite has_nl_app, has_nl_jpaths.
+Qed.
+
+(* the parser succeeds on every text the W model of NinjaFile.write produces for well-formed contents *)
+Theorem parse_total_on_written wf pbs dflt text :
+  has_nl (wf_bfgfile wf) = false ->
+  Forall wvar_ok (wf_path wf) -> Forall wvar_ok (wf_command wf) -> Forall wvar_ok (wf_flags wf) ->
+  Forall wvar_ok (wf_other wf) -> rules_ok [] (wf_rules wf) ->
+  wf_builds wf = map to_wbuild pbs -> Forall (pbuild_ok (map wr_name (wf_rules wf))) pbs ->
+  wf_defaults wf = path_items dflt -> all_paths_ok dflt ->
+  nf_write uw wf = Some text -> exists m, parse_manifest text = Some m.
+Proof.
+  intros Hbfg Hp Hc Hf Ho Hr Hb Hbo Hd Hdo H.
+  unfold nf_write in H. destruct (nf_lines uw wf) as [lines|] eqn:L; [|discriminate]. cbn [option_map] in H.
+  inversion H; subst text. clear H. unfold nf_lines in L.
+  apply opt_concat_cons_inv in L as [l0 [r0 [E0 [L ->]]]]. inversion E0; subst l0. clear E0.
+  apply opt_concat_cons_inv in L as [lv [r1 [Ev [L ->]]]].
+  apply opt_concat_cons_inv in L as [l2 [r2 [E2 [L ->]]]].
+  apply opt_concat_cons_inv in L as [l3 [r3 [E3 [L ->]]]].
+  apply opt_concat_cons_inv in L as [l4 [r4 [E4 [L ->]]]].
+  apply opt_concat_cons_inv in L as [l5 [r5 [E5 [L ->]]]].
+  apply opt_concat_app_inv in L as [lr [r6 [Er [L ->]]]].
+  apply opt_concat_app_inv in L as [lb [r7 [Eb [L ->]]]].
+  apply opt_concat_cons_inv in L as [ld [r8 [Ed [L ->]]]]. cbn in L. inversion L; subst r8. clear L.
+  rewrite app_nil_r.
+  destruct (header_run wf empty_manifest) as [Rh Nh]. specialize (Nh Hbfg).
+  destruct (version_run uw wf lv empty_manifest Ev) as [m1 [R1 [M1 [_ [_ N1]]]]].
+  destruct (section_run NClean _ l2 m1 eq_refl E2 Hp) as [m2 [R2 [M2 N2]]].
+  destruct (section_run NShell _ l3 m2 eq_refl E3 Hc) as [m3 [R3 [M3 N3]]].
+  destruct (section_run NShell _ l4 m3 eq_refl E4 Hf) as [m4 [R4 [M4 N4]]].
+  destruct (section_run NShell _ l5 m4 eq_refl E5 Ho) as [m5 [R5 [M5 N5]]].
+  assert (Hn5 : map r_name (m_rules m5) = []) by (rewrite M5, M4, M3, M2, M1; reflexivity).
+  destruct (rules_run (wf_rules wf) [] m5 lr Er Hr Hn5) as [m6 [R6 [M6 N6]]]. cbn [app] in M6.
+  rewrite Hb in Eb.
+  destruct (builds_run pbs _ m6 lb Eb Hbo M6) as [m7 [R7 [M7 N7]]].
+  destruct (defaults_run wf dflt ld m7 Hd Hdo Ed) as [m8 [R8 N8]].
+  exists m8. rewrite parse_unlines by (repeat (apply Forall_app; split); assumption).
+  rewrite run_lines_app, Rh, run_lines_app, R1, run_lines_app, R2, run_lines_app, R3, run_lines_app, R4,
+    run_lines_app, R5, run_lines_app, R6, run_lines_app, R7, R8. reflexivity.
+Qed.
+End Total.
